@@ -112,7 +112,12 @@ class Checker:
             ctx.klass("sibling_selected")
         exps, all_in, wf = canboat.ref_decode(target, payload, nbytes)
         try:
-            msg = self.decode(d, payload, nbytes, via)
+            from ..common import HangDetected, hang_guard
+            with hang_guard(20.0):
+                msg = self.decode(d, payload, nbytes, via)
+        except HangDetected:
+            out.append((f"C01|totality|{target.key}|never-returns", "the decoder did not return within 20 s of real time", case))
+            return out
         except Exception as e:
             if not target.supported and "not supported" in str(e):
                 ctx.klass("unsupported_definition_raises")
